@@ -452,6 +452,9 @@ func c20Typestate(c *Ctx, p *Prog) {
 		}
 		// (a) deferred abort registered, dominated by creation, dominating every later return
 		var def *ssa.Defer
+		guardSlot := slot
+		disarms := func(v ssa.Value) bool { k, ok := v.(*ssa.Const); return ok && k.IsNil() }
+		guardDesc := "the upload variable is nil"
 		eachInstr(fn, func(_ *ssa.BasicBlock, in ssa.Instruction) {
 			d, ok := in.(*ssa.Defer)
 			if !ok {
@@ -462,8 +465,9 @@ func c20Typestate(c *Ctx, p *Prog) {
 				return
 			}
 			cl := mc.Fn.(*ssa.Function)
-			if abortsIffNonNil(cl, mc, slot) {
+			if g, dis, ds := abortGuard(cl, mc, slot); g != nil {
 				def = d
+				guardSlot, disarms, guardDesc = g, dis, ds
 			}
 		})
 		if def == nil {
@@ -483,15 +487,15 @@ func c20Typestate(c *Ctx, p *Prog) {
 			c.Check(okDom && okRet, R, name+":deferred-abort", p.pos(def.Pos()), "deferred abort registered right after creation and before every later return",
 				"a return after the upload was created is not covered by the deferred abort")
 		}
-		// (b) stores of nil only on Commit's ok edge
+		// (b) the abort is disarmed (upload = nil, or committed = true) only on Commit's ok edge
+		_ = guardDesc
 		i := 0
-		for _, r := range *slot.Referrers() {
+		for _, r := range *guardSlot.Referrers() {
 			st, ok := r.(*ssa.Store)
-			if !ok || st.Addr != slot {
+			if !ok || st.Addr != guardSlot {
 				continue
 			}
-			cst, isC := st.Val.(*ssa.Const)
-			if !isC || !cst.IsNil() {
+			if !disarms(st.Val) {
 				continue
 			}
 			if st.Block() == fn.Blocks[0] && instrIndex(st) < 4 {
@@ -514,11 +518,11 @@ func c20Typestate(c *Ctx, p *Prog) {
 					}
 				}
 			}
-			c.Check(ok2, R, fmt.Sprintf("%s:clear-upload#%d", name, i), p.pos(st.Pos()), "the upload variable is cleared only after Commit succeeded",
-				"the upload variable is cleared on a path where Commit has not succeeded: the deferred abort is disarmed although the upload may be incomplete")
+			c.Check(ok2, R, fmt.Sprintf("%s:clear-upload#%d", name, i), p.pos(st.Pos()), "the deferred abort is disarmed only after Commit succeeded",
+				"the deferred abort is disarmed ("+guardDesc+") on a path where Commit has not succeeded: the upload may be incomplete and is no longer aborted")
 		}
 		if i == 0 {
-			c.Undecided(R, name+":clear-upload", site, "the upload variable is never cleared: Abort would run after a successful Commit")
+			c.Undecided(R, name+":clear-upload", site, "the deferred abort is never disarmed: Abort would run after a successful Commit")
 		}
 		// (c) normal end of the part loop: err == io.EOF exactly
 		var np *ssa.Call
@@ -603,6 +607,64 @@ func sameErr(v, ev ssa.Value) bool {
 }
 
 // abortsIffNonNil: closure body is `if *slot != nil { (*slot).Abort() }`.
+// abortGuard: the deferred closure calls Upload.Abort on the captured upload exactly under a test of a captured
+// variable: the upload slot itself (abort while non-nil; disarmed by storing nil) or a boolean flag (abort while
+// !committed / while armed; disarmed by storing the opposite constant). Returns the guard slot and a predicate
+// recognising the disarming store value.
+func abortGuard(cl *ssa.Function, mc *ssa.MakeClosure, slot *ssa.Alloc) (guard *ssa.Alloc, disarms func(v ssa.Value) bool, desc string) {
+	fvIdx := -1
+	for i, b := range mc.Bindings {
+		if b == slot {
+			fvIdx = i
+		}
+	}
+	if fvIdx < 0 {
+		return nil, nil, ""
+	}
+	fv := cl.FreeVars[fvIdx]
+	eachInstr(cl, func(b *ssa.BasicBlock, in ssa.Instruction) {
+		call, isCall := in.(*ssa.Call)
+		if !isCall || !objIs(calleeObj(&call.Call), stDBPkg, "Upload", "Abort") {
+			return
+		}
+		if la := loadAddr(call.Call.Args[0]); la != fv {
+			return
+		}
+		for _, f := range factsAt(b) {
+			// upload != nil
+			if bo, isBo := f.Cond.(*ssa.BinOp); isBo {
+				if la := loadAddr(bo.X); la == fv {
+					if cst, isC := bo.Y.(*ssa.Const); isC && cst.IsNil() && ((bo.Op == token.NEQ && f.True) || (bo.Op == token.EQL && !f.True)) {
+						guard = slot
+						disarms = func(v ssa.Value) bool { k, ok := v.(*ssa.Const); return ok && k.IsNil() }
+						desc = "the upload variable is nil"
+					}
+				}
+				continue
+			}
+			// a captured boolean flag, loaded directly (possibly negated: factsAt peels the negation)
+			if la := loadAddr(f.Cond); la != nil {
+				if gfv, ok := la.(*ssa.FreeVar); ok && isBoolT(f.Cond.Type()) {
+					for i, x := range cl.FreeVars {
+						if x == gfv {
+							if al, ok := mc.Bindings[i].(*ssa.Alloc); ok {
+								abortWhen := f.True
+								guard = al
+								disarms = func(v ssa.Value) bool {
+									k, ok := v.(*ssa.Const)
+									return ok && k.Value != nil && k.Value.Kind() == constant.Bool && constant.BoolVal(k.Value) == !abortWhen
+								}
+								desc = fmt.Sprintf("the flag %s is %v", al.Comment, !abortWhen)
+							}
+						}
+					}
+				}
+			}
+		}
+	})
+	return
+}
+
 func abortsIffNonNil(cl *ssa.Function, mc *ssa.MakeClosure, slot *ssa.Alloc) bool {
 	// which free variable is bound to slot
 	fvIdx := -1
